@@ -1,6 +1,7 @@
 package main
 
 import (
+	"fmt"
 	"go/ast"
 	"go/token"
 	"go/types"
@@ -533,75 +534,7 @@ func runC07(c *Ctx) {
 
 	// ---- R5 ----
 	if dfr := c.MustFunc("C07-R5", "internal/config.isDisabledForRule"); dfr != nil {
-		info := dfr.Pkg.TypesInfo
-		sig := dfr.Obj.Type().(*types.Signature)
-		var nameObj types.Object
-		if i := paramIndex(sig, "name"); i >= 0 {
-			nameObj = sig.Params().At(i)
-		}
-		// the matches literal
-		hasName, hasString, hasTag := false, false, false
-		var matchesObj types.Object
-		ast.Inspect(dfr.Decl.Body, func(n ast.Node) bool {
-			switch x := n.(type) {
-			case *ast.AssignStmt:
-				if len(x.Rhs) == 1 {
-					if cl, ok := x.Rhs[0].(*ast.CompositeLit); ok && info.TypeOf(cl).String() == "[]string" {
-						matchesObj = objOf(info, x.Lhs[0])
-						for _, el := range cl.Elts {
-							if objOf(info, el) == nameObj && nameObj != nil {
-								hasName = true
-							}
-							if call, ok := el.(*ast.CallExpr); ok && roleStr(info, call.Fun) == "«RuleChecker».String" {
-								hasString = true
-							}
-						}
-					}
-					if call, ok := x.Rhs[0].(*ast.CallExpr); ok && exprStr(call.Fun) == "append" && len(call.Args) == 2 && objOf(info, call.Args[0]) == matchesObj && matchesObj != nil {
-						if sp, ok := call.Args[1].(*ast.CallExpr); ok && len(sp.Args) == 3 {
-							if f, ok := constString(info, sp.Args[0]); ok && f == "%s(+%s)" && objOf(info, sp.Args[1]) == nameObj {
-								hasTag = true
-							}
-						}
-					}
-				}
-			}
-			return true
-		})
-		c.Check(hasName && hasString && hasTag, "C07-R5", "isDisabledForRule:spellings name|check.String()|name(+tag)", dfr.Decl.Pos(), "documented spellings",
-			"accepted spellings changed: name="+boolStr(hasName)+" check.String()="+boolStr(hasString)+" name(+tag)="+boolStr(hasTag))
-		// comparisons with .Match are equalities against the ranged spelling
-		for _, vt := range []string{"internal/comments.Disable", "internal/comments.Snooze"} {
-			n, good := 0, 0
-			ast.Inspect(dfr.Decl.Body, func(nd ast.Node) bool {
-				be, ok := nd.(*ast.BinaryExpr)
-				if !ok {
-					return true
-				}
-				for _, side := range []ast.Expr{be.X, be.Y} {
-					if fieldSel(info, side, vt, "Match") {
-						n++
-						if be.Op == token.EQL {
-							good++
-						}
-					}
-				}
-				return true
-			})
-			c.Check(n > 0 && n == good, "C07-R5", "isDisabledForRule:"+vt+".Match compared by ==", dfr.Decl.Pos(), "equality", vt+".Match is not compared by equality ("+itoa(good)+"/"+itoa(n)+")")
-		}
-		// a match returns true; fallthrough returns false
-		rets := returnsIn(dfr.Decl.Body.List)
-		nTrue, lastFalse := 0, false
-		for i, r := range rets {
-			if exprStr(r.Results[0]) == "true" {
-				nTrue++
-			}
-			if i == len(rets)-1 {
-				lastFalse = exprStr(r.Results[0]) == "false"
-			}
-		}
-		c.Check(nTrue == 2 && lastFalse, "C07-R5", "isDisabledForRule:match=>true, none=>false", dfr.Decl.Pos(), "two positive exits", "return structure changed (true exits="+itoa(nTrue)+")")
+		c07DisabledForRuleSemantics(c, dfr)
 	}
 
 	// ---- R6 ----
@@ -1157,4 +1090,173 @@ func c07EveryCommentStringParsed(c *Ctx, R string) {
 		return true
 	})
 	c.Check(n >= 1, R, "parseRule:comment strings of a rule enumerated", fi.Decl.Pos(), itoa(n), "no loop over mergeComments(…)")
+}
+
+// c07DisabledForRuleSemantics runs config.isDisabledForRule (minieval.go) on
+// every combination of: the rule's disable comments (8 shapes of their Match
+// values), its snooze comments (the same shapes, each comment expired or
+// still active), and the check having a Prometheus tag or not — and compares
+// the verdict with the documented one: the check is off for the rule exactly
+// when a disable comment, or a snooze comment that has not expired, names it
+// by its registered name, by its String() form or as name(+tag) for one of its
+// tags. comments.Only[T](rule.Comments, <T>Type) is the oracle that supplies
+// the comments; handing it the wrong type constant fails the run.
+func c07DisabledForRuleSemantics(c *Ctx, fi *FuncInfo) {
+	R := "C07-R5"
+	info := fi.Pkg.TypesInfo
+	sig := fi.Obj.Type().(*types.Signature)
+	par := func(name string) types.Object {
+		if i := paramIndex(sig, name); i >= 0 {
+			return sig.Params().At(i)
+		}
+		return nil
+	}
+	ruleP, nameP, checkP, tagsP := par("rule"), par("name"), par("check"), par("promTags")
+	if ruleP == nil || nameP == nil || checkP == nil || tagsP == nil {
+		c.Undecided(R, "anchor:isDisabledForRule:params", fi.Decl.Pos(), "expected parameters rule, name, check, promTags")
+		return
+	}
+	const N, S, T = "N", "S(…)", "t"
+	shapes := [][]string{{}, {N}, {S}, {N + "(+" + T + ")"}, {"X"}, {"X", N}, {N + "(+other)"}, {N + "("}}
+	show := func(l []string) string {
+		if len(l) == 0 {
+			return "-"
+		}
+		return strings.Join(l, ",")
+	}
+	names := func(tags []string) map[string]bool {
+		m := map[string]bool{N: true, S: true}
+		for _, t := range tags {
+			m[N+"(+"+t+")"] = true
+		}
+		return m
+	}
+	for _, dis := range shapes {
+		for _, sn := range shapes {
+			key := "isDisabledForRule:disable=[" + show(dis) + "] snooze=[" + show(sn) + "]"
+			bad, undec := "", ""
+			// active: bit i set = i-th snooze comment has not expired
+			for act := 0; act < 1<<len(sn); act++ {
+				for _, hasTag := range []bool{false, true} {
+					tags := []string{}
+					if hasTag {
+						tags = []string{T}
+					}
+					nm := names(tags)
+					want := false
+					for _, d := range dis {
+						if nm[d] {
+							want = true
+						}
+					}
+					for i, s := range sn {
+						if act&(1<<i) != 0 && nm[s] {
+							want = true
+						}
+					}
+					var disRecs, snRecs []map[string]mval
+					for _, d := range dis {
+						disRecs = append(disRecs, map[string]mval{"Match": mStr(d)})
+					}
+					for i, s := range sn {
+						snRecs = append(snRecs, map[string]mval{"Match": mStr(s), "Until": {k: mvRec, rec: map[string]mval{"active": mBool(act&(1<<i) != 0)}}})
+					}
+					ev := &miniEval{info: info, prog: c.P, env: map[types.Object]mval{}}
+					ev.env[nameP], ev.env[tagsP] = mStr(N), mList(tags)
+					isNow := func(e ast.Expr) bool {
+						call, ok := ast.Unparen(e).(*ast.CallExpr)
+						if !ok {
+							return false
+						}
+						fn := Callee(info, call)
+						return fn != nil && fn.FullName() == "time.Now"
+					}
+					ev.oracle = func(ev *miniEval, call *ast.CallExpr) (mval, bool) {
+						if s2, ok := call.Fun.(*ast.SelectorExpr); ok && s2.Sel.Name == "String" && len(call.Args) == 0 && objOf(info, s2.X) == checkP {
+							return mStr(S), true
+						}
+						if fn := Callee(info, call); fn != nil && fn.Pkg() != nil && fn.Pkg().Path() == "fmt" && fn.Name() == "Sprintf" && len(call.Args) == 3 {
+							if f, ok := constString(info, call.Args[0]); ok && f == "%s(+%s)" {
+								a, b := ev.expr(call.Args[1]), ev.expr(call.Args[2])
+								if a.k == mvStr && b.k == mvStr {
+									return mStr(a.s + "(+" + b.s + ")"), true
+								}
+							}
+						}
+						// comments.Only[T](rule.Comments, TType)
+						if fn := Callee(info, call); fn != nil && fn.Pkg() != nil && strings.HasSuffix(fn.Pkg().Path(), "internal/comments") && fn.Name() == "Only" && len(call.Args) == 2 {
+							if !fieldSel(info, call.Args[0], "internal/parser.Rule", "Comments") || objOf(info, ast.Unparen(call.Args[0]).(*ast.SelectorExpr).X) != ruleP {
+								ev.fail("comments.Only is not given the comments of the rule")
+								return mval{}, true
+							}
+							t := info.TypeOf(call)
+							k, _ := info.Uses[selOrIdent(call.Args[1])].(*types.Const)
+							switch {
+							case t != nil && strings.HasSuffix(t.String(), "comments.Disable") && k != nil && k.Name() == "DisableType":
+								return mval{k: mvRecList, recs: disRecs}, true
+							case t != nil && strings.HasSuffix(t.String(), "comments.Snooze") && k != nil && k.Name() == "SnoozeType":
+								return mval{k: mvRecList, recs: snRecs}, true
+							}
+							ev.fail("comments.Only[" + exprStr(call.Fun) + "] is asked for `" + exprStr(call.Args[1]) + "`: the comment type and the type constant do not belong together")
+							return mval{}, true
+						}
+						// <until>.After(time.Now()) / time.Now().Before(<until>): not expired
+						if s2, ok := call.Fun.(*ast.SelectorExpr); ok && len(call.Args) == 1 {
+							switch {
+							case s2.Sel.Name == "After" && isNow(call.Args[0]), s2.Sel.Name == "Before" && isNow(s2.X):
+								u := call.Args[0]
+								if s2.Sel.Name == "After" {
+									u = s2.X
+								}
+								if r := ev.expr(u); r.k == mvRec {
+									return r.rec["active"], true
+								}
+							case s2.Sel.Name == "Before" && isNow(call.Args[0]), s2.Sel.Name == "After" && isNow(s2.X):
+								u := call.Args[0]
+								if s2.Sel.Name == "Before" {
+									u = s2.X
+								}
+								if r := ev.expr(u); r.k == mvRec {
+									if a := r.rec["active"]; a.k == mvBool {
+										return mBool(!a.b), true
+									}
+								}
+							}
+						}
+						return mval{}, false
+					}
+					ctl := ev.block(fi.Decl.Body.List)
+					if ev.undec != "" || ctl.kind != 'r' || ctl.ret.k != mvBool {
+						if undec == "" {
+							undec = ev.undec
+							if undec == "" {
+								undec = "no boolean result"
+							}
+						}
+						continue
+					}
+					if ctl.ret.b != want && bad == "" {
+						bad = "with tags=[" + show(tags) + "] and snooze comments active=" + fmt.Sprintf("%b", act) + " the check is " + map[bool]string{true: "off", false: "on"}[ctl.ret.b] + " for the rule, documented: " + map[bool]string{true: "off", false: "on"}[want]
+					}
+				}
+			}
+			switch {
+			case undec != "":
+				c.Undecided(R, key, fi.Decl.Pos(), "isDisabledForRule could not be evaluated: "+undec)
+			default:
+				c.Check(bad == "", R, key, fi.Decl.Pos(), "agrees with the documented meaning on every valuation",
+					bad+": a `# pint disable`/`snooze` comment switches off a check it does not name, or fails to switch off the one it names (N = registered name, S(…) = String() form, t = a tag of the check's server)")
+			}
+		}
+	}
+}
+
+func selOrIdent(e ast.Expr) *ast.Ident {
+	switch x := ast.Unparen(e).(type) {
+	case *ast.Ident:
+		return x
+	case *ast.SelectorExpr:
+		return x.Sel
+	}
+	return nil
 }
